@@ -222,6 +222,14 @@ def triage(c, failed, prop, tier):
 _FAILED = {}
 
 
+def _ensure_violated(path):
+    try:
+        d = json.load(open(os.path.join(ROOT, path)))
+        return bool(d.get("replay", {}).get("violated"))
+    except Exception:
+        return False
+
+
 def _triage_task(ci):
     fl, prop, tier = _FAILED[ci]
     try:
@@ -326,6 +334,11 @@ def main(prop, tier, seed):
         for tr in tres:
             for f, path, reproduced in tr:
                 hit = [k for k in kf if any(fnmatch.fnmatch(f["name"], pat) for pat in k.get("obligations", []))]
+                cdeg = next((c_ for c_ in ctxs if f["name"].startswith(c_.name + "/")), None)
+                if cdeg is not None and cdeg.degraded and not (reproduced and _ensure_violated(path)):
+                    undecided.append(f"{f['name']} refuted, but the contract lost invariant conjunct(s) about internal registers "
+                                     f"that no longer exist ({'; '.join(cdeg.degraded)}) and no replayed ensures-level witness was found")
+                    continue
                 if hit:
                     known_lines.append(f"KNOWN-FINDING: property={prop} {hit[0]['what']} [{f['name']}]")
                 else:
@@ -350,7 +363,7 @@ def main(prop, tier, seed):
         "contracts": [{"name": c.name, "units": [u.summary() for u in c.units], "ghosts": list(c.ghosts),
                        "requires": [n for n, _ in c.all_requires()], "invariant_conjuncts": [n for n, _ in c.invs],
                        "ensures": [{"name": n, "clause": cl} for n, _, cl in c.ensures],
-                       "induction_k": c.induction_k, **c.log} for c in ctxs],
+                       "induction_k": c.induction_k, "skipped_conjuncts": c.degraded, **c.log} for c in ctxs],
         "by_backend": by_backend, "solver_seconds": round(solver_s, 2),
         "obligation_kinds": {k: sum(1 for r in results if r["kind"] == k) for k in sorted({r["kind"] for r in results})},
         "covers": {"total": covers_total, "reached": covers_hit},
